@@ -464,3 +464,169 @@ func TestVerifC16d(t *testing.T) {
 	res.Sample(map[string]any{"query_len": 65535, "shape": "header + '.' A IN + OPT with a 65503 byte padding option", "reply": 65535})
 	res.Write(e)
 }
+
+// ---------------------------------------------------------------------------
+// C16 part e: the same enumeration through the real ServeTCP (plain TCP, not
+// TLS) on an in-memory listener: every query length as the FIRST frame of a
+// fresh connection, a second query on the same connection behind it.
+
+type c16eListener struct {
+	ch     chan net.Conn
+	closed chan struct{}
+	once   sync.Once
+}
+
+func (l *c16eListener) Accept() (net.Conn, error) {
+	select {
+	case c := <-l.ch:
+		return c, nil
+	case <-l.closed:
+		return nil, net.ErrClosed
+	}
+}
+func (l *c16eListener) Close() error   { l.once.Do(func() { close(l.closed) }); return nil }
+func (l *c16eListener) Addr() net.Addr { return &net.TCPAddr{IP: net.IPv4(192, 0, 2, 1), Port: 53} }
+
+type c16eAddrConn struct {
+	net.Conn
+}
+
+func (c c16eAddrConn) RemoteAddr() net.Addr { return &net.TCPAddr{IP: net.IPv4(192, 0, 2, 2), Port: 40000} }
+func (c c16eAddrConn) LocalAddr() net.Addr  { return &net.TCPAddr{IP: net.IPv4(192, 0, 2, 1), Port: 53} }
+
+func c16eReadFrame(c net.Conn) ([]byte, error) {
+	var h [2]byte
+	if _, err := io.ReadFull(c, h[:]); err != nil {
+		return nil, err
+	}
+	b := make([]byte, binary.BigEndian.Uint16(h[:]))
+	_, err := io.ReadFull(c, b)
+	return b, err
+}
+
+func TestVerifC16e(t *testing.T) {
+	e := vr.GetEnv()
+	res := vr.New("C16", e)
+	res.Rule = "e: one evaluation = one query of one length sent as the first frame of a fresh connection to the real ServeTCP (in-memory listener), with one reply size, followed by a small second query on the same connection; both replies must be the frames the handler produced. Outcome classes: query length class x reply size"
+	h := &c16dHandler{seen: map[uint16]c16dSeen{}, want: map[uint16]int{}, sent: map[uint16][]byte{}}
+	l := &c16eListener{ch: make(chan net.Conn), closed: make(chan struct{})}
+	done := make(chan struct{})
+	go func() { defer close(done); ServeTCP(l, h, TCPServerOpts{}) }()
+	defer func() {
+		l.Close()
+		select {
+		case <-done:
+		case <-time.After(10 * time.Second):
+		}
+	}()
+	var id uint16 = 1
+	one := func(ql, reply int) (string, string) {
+		cc, sc := net.Pipe()
+		select {
+		case l.ch <- c16eAddrConn{sc}:
+		case <-time.After(20 * time.Second):
+			return "infra-accept", "the server did not accept within 20 s"
+		}
+		defer cc.Close()
+		cc.SetDeadline(time.Now().Add(20 * time.Second))
+		id += 2
+		q1, q2 := c16dQuery(ql, id), c16dQuery(17, id+1)
+		h.mu.Lock()
+		h.want[id], h.want[id+1] = reply, 0
+		delete(h.sent, id)
+		delete(h.sent, id+1)
+		h.mu.Unlock()
+		werr := make(chan error, 1)
+		go func() {
+			frame := binary.BigEndian.AppendUint16(make([]byte, 0, ql+2+19), uint16(ql))
+			frame = append(frame, q1...)
+			frame = binary.BigEndian.AppendUint16(frame, 17)
+			frame = append(frame, q2...)
+			_, err := cc.Write(frame)
+			werr <- err
+		}()
+		got := map[uint16][]byte{}
+		for len(got) < 2 {
+			f, err := c16eReadFrame(cc)
+			if err != nil {
+				return "no-reply", fmt.Sprintf("%d of 2 replies received, then: %v", len(got), err)
+			}
+			if len(f) < 12 {
+				return "reply-bad-frame", fmt.Sprintf("a frame of %d bytes", len(f))
+			}
+			got[binary.BigEndian.Uint16(f)] = f
+		}
+		if err := <-werr; err != nil {
+			return "client-write-failed", err.Error()
+		}
+		h.mu.Lock()
+		s1, s2 := h.sent[id], h.sent[id+1]
+		h.mu.Unlock()
+		for k, s := range map[uint16][]byte{id: s1, id + 1: s2} {
+			if s == nil {
+				return "query-not-delivered", fmt.Sprintf("the handler never packed a reply for query %#x", k)
+			}
+			if string(got[k]) != string(s[2:]) {
+				return "reply-differs", fmt.Sprintf("query %#x: the connection carried %d bytes, the handler's packed reply has %d", k, len(got[k]), len(s)-2)
+			}
+		}
+		return "", ""
+	}
+	eval := func(ql, reply int) {
+		var obs, detail string
+		for try := 0; try < 3; try++ {
+			obs, detail = one(ql, reply)
+			res.Evaluations++
+			res.Transitions++
+			if obs == "" {
+				res.Outcome(fmt.Sprintf("e/len %s/reply %d/ok", c16dClass(ql), reply))
+				return
+			}
+		}
+		if len(obs) > 5 && obs[:5] == "infra" {
+			res.Infra = "e: " + obs + ": " + detail
+			return
+		}
+		res.ViolateInput("tcp-server/"+obs, fmt.Sprintf("a %d byte query as the first frame of a plain TCP connection (reply of %d bytes) and a second query behind it: %s (same result three times)", ql, reply, detail), c16dInput{Len: ql, Reply: reply})
+	}
+	if raw, ok := vr.ReplayInput(); ok {
+		var in c16dInput
+		if err := json.Unmarshal(raw, &in); err != nil {
+			t.Fatal(err)
+		}
+		eval(in.Len, in.Reply)
+		for _, v := range res.Violations {
+			fmt.Println("violation:", v.Sig, v.Desc)
+		}
+		res.Write(e)
+		return
+	}
+	stride := 7
+	if e.Tier == "thorough" {
+		stride = 1
+	}
+	res.Bounds["e.query_lengths"] = fmt.Sprintf("17, 19..65535 step %d, plus every length whose low or high octet is 0x16, 0x17, 0x47 or 0x50 in quick (the first octets of TLS records and HTTP requests)", stride)
+	res.Bounds["e.reply_sizes"] = c16dReplySizes
+	n := 0
+	last := 0
+	for ql := 17; ql <= 65535 && res.Infra == ""; ql++ {
+		hi, lo := ql>>8, ql&0xff
+		special := hi == 0x16 || hi == 0x17 || hi == 0x47 || hi == 0x50 || ((lo == 0x16 || lo == 0x03) && hi < 0x20)
+		if ql == 18 || (!special && (ql-17)%stride != 0) {
+			continue
+		}
+		n++
+		if !e.Mine(int64(n)) {
+			continue
+		}
+		if e.Expired() {
+			res.Exhaustive = false
+			res.Notes = append(res.Notes, fmt.Sprintf("e: budget expired; lengths up to %d completed in shard %d", last, e.Shard))
+			break
+		}
+		eval(ql, c16dReplySizes[n%len(c16dReplySizes)])
+		res.States++
+		last = ql
+	}
+	res.Write(e)
+}
